@@ -38,12 +38,12 @@ class W(str, CombinatorialObject):
         return str.__len__(self)
 
 
-def brute(alphabet, prefix, patterns, just_prefix, n):
+def brute(alphabet, prefix, patterns, just_prefix, n, proper=False):
     if just_prefix:
         if n == len(prefix) and not any(p in prefix for p in patterns):
             yield W(prefix)
         return
-    if len(prefix) > n:
+    if len(prefix) > n or (proper and len(prefix) == n):
         return
     for letters in itertools.product(alphabet, repeat=n - len(prefix)):
         w = prefix + "".join(letters)
@@ -52,19 +52,28 @@ def brute(alphabet, prefix, patterns, just_prefix, n):
 
 
 class WC(CombinatorialClass[W]):
-    def __init__(self, prefix, patterns, alphabet, just_prefix=False, stats=()):
+    def __init__(self, prefix, patterns, alphabet, just_prefix=False, stats=(), proper=False):
         self.alphabet = tuple(sorted(alphabet))
         self.prefix = W(prefix)
         self.patterns = tuple(sorted(set(map(W, patterns))))
         self.just_prefix = bool(just_prefix)
         self.stats = tuple(sorted((str(k), "".join(sorted(set(v)))) for k, v in stats))
+        # proper: only the words strictly longer than the prefix ("C+(p)")
+        self.proper = bool(proper) and not self.just_prefix
 
     # -- required by the engine
+    def _bad(self, word):
+        return any(p in word for p in self.patterns)
+
     def is_empty(self):
-        return any(p in self.prefix for p in self.patterns)
+        if self._bad(self.prefix):
+            return True
+        if self.proper:
+            return all(self._bad(self.prefix + a) for a in self.alphabet)
+        return False
 
     def _key(self):
-        return (self.alphabet, self.prefix, self.patterns, self.just_prefix, self.stats)
+        return (self.alphabet, self.prefix, self.patterns, self.just_prefix, self.stats, self.proper)
 
     def __eq__(self, other):
         if not isinstance(other, WC):
@@ -76,36 +85,39 @@ class WC(CombinatorialClass[W]):
 
     def __repr__(self):
         return (f"{type(self).__name__}({str(self.prefix)!r},{list(map(str, self.patterns))!r},"
-                f"{''.join(self.alphabet)!r},{self.just_prefix},{list(self.stats)!r})")
+                f"{''.join(self.alphabet)!r},{self.just_prefix},{list(self.stats)!r}"
+                f"{',proper' if self.proper else ''})")
 
     def __str__(self):
         st = " " + ",".join(f"{k}=#{v}" for k, v in self.stats) if self.stats else ""
         if self.just_prefix:
             return f"word '{self.prefix}'{st}"
-        return f"{{{','.join(self.alphabet)}}}* av {{{','.join(self.patterns)}}} pre '{self.prefix}'{st}"
+        plus = "+" if self.proper else ""
+        return f"{{{','.join(self.alphabet)}}}* av {{{','.join(self.patterns)}}} pre{plus} '{self.prefix}'{st}"
 
     def descriptor(self):
         return {"prefix": str(self.prefix), "patterns": [str(p) for p in self.patterns],
                 "alphabet": "".join(self.alphabet), "just_prefix": self.just_prefix,
-                "stats": [list(s) for s in self.stats], "bytes": isinstance(self, WCB)}
+                "stats": [list(s) for s in self.stats], "bytes": isinstance(self, WCB),
+                "proper": self.proper}
 
     @staticmethod
     def from_descriptor(d):
         cls = WCB if d.get("bytes") else WC
         return cls(d["prefix"], d["patterns"], d["alphabet"], d["just_prefix"],
-                   [tuple(s) for s in d["stats"]])
+                   [tuple(s) for s in d["stats"]], d.get("proper", False))
 
     def to_jsonable(self):
         d = super().to_jsonable()
         d.update(prefix=str(self.prefix), patterns=[str(p) for p in self.patterns],
                  alphabet=list(self.alphabet), just_prefix=int(self.just_prefix),
-                 stats=[list(s) for s in self.stats])
+                 stats=[list(s) for s in self.stats], proper=int(self.proper))
         return d
 
     @classmethod
     def from_dict(cls, d):
         return cls(d["prefix"], d["patterns"], d["alphabet"], bool(d["just_prefix"]),
-                   [tuple(s) for s in d["stats"]])
+                   [tuple(s) for s in d["stats"]], bool(d.get("proper", 0)))
 
     # -- counting support
     @property
@@ -120,7 +132,13 @@ class WC(CombinatorialClass[W]):
         return tuple(sum(1 for c in obj if c in letters) for _, letters in self.stats)
 
     def get_minimum_value(self, parameter):
-        return self.stat_value(parameter, self.prefix)
+        base_value = self.stat_value(parameter, self.prefix)
+        if self.proper:
+            letters = dict(self.stats)[parameter]
+            ok = [a for a in self.alphabet if not self._bad(self.prefix + a)]
+            if ok and all(a in letters for a in ok):
+                return base_value + 1
+        return base_value
 
     def possible_parameters(self, n):
         seen = set()
@@ -134,18 +152,20 @@ class WC(CombinatorialClass[W]):
         return self.just_prefix
 
     def minimum_size_of_object(self):
-        return len(self.prefix)
+        return len(self.prefix) + (1 if self.proper else 0)
 
     def objects_of_size(self, n, **parameters):
-        for w in brute(self.alphabet, self.prefix, self.patterns, self.just_prefix, n):
+        for w in brute(self.alphabet, self.prefix, self.patterns, self.just_prefix, n, self.proper):
             if parameters and any(self.stat_value(k, w) != v for k, v in parameters.items()):
                 continue
             yield w
 
     def with_(self, **kw):
         d = dict(prefix=self.prefix, patterns=self.patterns, alphabet=self.alphabet,
-                 just_prefix=self.just_prefix, stats=self.stats)
+                 just_prefix=self.just_prefix, stats=self.stats, proper=self.proper)
         d.update(kw)
+        if d["just_prefix"]:
+            d["proper"] = False
         return type(self)(**d)
 
 
@@ -155,12 +175,12 @@ class WCB(WC):
     def to_bytes(self):
         return json.dumps([str(self.prefix), [str(p) for p in self.patterns],
                            "".join(self.alphabet), self.just_prefix,
-                           [list(s) for s in self.stats]]).encode()
+                           [list(s) for s in self.stats], self.proper]).encode()
 
     @classmethod
     def from_bytes(cls, b):
-        p, pats, al, jp, st = json.loads(b.decode())
-        return cls(p, pats, al, jp, [tuple(s) for s in st])
+        p, pats, al, jp, st, pr = json.loads(b.decode())
+        return cls(p, pats, al, jp, [tuple(s) for s in st], pr)
 
 
 def atom_stats(cls, word, drop):
@@ -193,23 +213,24 @@ class _Opts:
 
 
 class Expand(_Opts, DisjointUnionStrategy[WC, W]):
-    """C(p) = {p}  +  sum over letters a of C(p a)."""
+    """C(p) = {p} + sum over letters a of C(p a);   C+(p) = sum over letters a of C(p a).
+    With plus=True the first step is split in two:  C(p) = {p} + C+(p)."""
 
-    OPTS = ("drop", "order", "two_way")
+    OPTS = ("drop", "order", "plus")
 
-    def __init__(self, drop=False, order=0, two_way=True, **kw):
-        self.drop, self.order, self.two_way = bool(drop), int(order), bool(two_way)
+    def __init__(self, drop=False, order=0, plus=False, **kw):
+        self.drop, self.order, self.plus = bool(drop), int(order), bool(plus)
         super().__init__(**kw)
-
-    def is_two_way(self, comb_class):
-        return self.two_way
 
     def decomposition_function(self, c):
         if c.just_prefix:
             return None
         letters = c.alphabet if self.order != 1 else c.alphabet[::-1]
+        extensions = [c.with_(prefix=c.prefix + a, proper=False) for a in letters]
+        if c.proper:
+            return tuple(extensions)
         kids = [c.with_(just_prefix=True, stats=atom_stats(c, c.prefix, self.drop))]
-        kids += [c.with_(prefix=c.prefix + a) for a in letters]
+        kids += [c.with_(proper=True)] if self.plus else extensions
         if self.order == 2:
             kids = kids[1:] + kids[:1]
         return tuple(kids)
@@ -222,7 +243,7 @@ class Expand(_Opts, DisjointUnionStrategy[WC, W]):
         return tuple({k: k for k in ch.extra_parameters} for ch in children)
 
     def formal_step(self):
-        return f"expand(drop={self.drop},order={self.order},two_way={self.two_way})"
+        return f"expand(drop={self.drop},order={self.order},plus={self.plus})"
 
     def forward_map(self, c, word, children=None):
         if children is None:
@@ -405,11 +426,11 @@ class ExpandFactory(StrategyFactory[WC]):
     """mode 0: yields strategies; 1: yields ready rules; 2: additionally the Expand rule
     of the class whose prefix is one letter shorter (a rule whose parent is another class)."""
 
-    def __init__(self, mode=0, drop=False):
-        self.mode, self.drop = int(mode), bool(drop)
+    def __init__(self, mode=0, drop=False, plus=False):
+        self.mode, self.drop, self.plus = int(mode), bool(drop), bool(plus)
 
     def __call__(self, c):
-        strat = Expand(drop=self.drop)
+        strat = Expand(drop=self.drop, plus=self.plus)
         if self.mode == 0:
             yield strat
             return
@@ -418,18 +439,18 @@ class ExpandFactory(StrategyFactory[WC]):
         except StrategyDoesNotApply:
             pass
         if self.mode == 2 and c.prefix and not c.just_prefix:
-            other = c.with_(prefix=c.prefix[:-1])
+            other = c.with_(prefix=c.prefix[:-1], proper=False)
             yield strat(other)
 
     def __str__(self):
         return f"expand factory(mode={self.mode})"
 
     def __repr__(self):
-        return f"ExpandFactory(mode={self.mode}, drop={self.drop})"
+        return f"ExpandFactory(mode={self.mode}, drop={self.drop}, plus={self.plus})"
 
     def to_jsonable(self):
         d = super().to_jsonable()
-        d.update(mode=self.mode, drop=self.drop)
+        d.update(mode=self.mode, drop=self.drop, plus=self.plus)
         return d
 
     @classmethod
@@ -501,8 +522,8 @@ class PrefixVerified(VerificationStrategy[WC, W]):
         return res
 
     def get_genf(self, c, funcs=None):
-        if any(len(p) != 1 for p in c.patterns):
-            raise NotImplementedError("no closed form for long patterns")
+        if any(len(p) != 1 for p in c.patterns) or c.proper:
+            raise NotImplementedError("no closed form for long patterns / proper classes")
         x = sympy.var("x")
         e = x ** len(c.prefix)
         for k, v in zip(c.extra_parameters, c.get_parameters(c.prefix)):
@@ -544,7 +565,7 @@ class PrefixVerified(VerificationStrategy[WC, W]):
 # ----------------------------------------------------------------------------- packs
 
 PACK_DEFAULTS = {
-    "drop": False, "order": 0, "atom_last": False, "split": False, "two_way": True,
+    "drop": False, "order": 0, "atom_last": False, "split": False, "plus": False,
     "sym": False, "inferral": [], "layout": "initial", "factory": None,
     "ver": "stat", "iterative": False,
 }
@@ -564,9 +585,9 @@ def make_pack(opts=None):
     o.update(opts or {})
     remove = RemoveFront(drop=o["drop"], atom_last=o["atom_last"], split=o["split"])
     if o["factory"] is None:
-        expand = Expand(drop=o["drop"], order=o["order"], two_way=o["two_way"])
+        expand = Expand(drop=o["drop"], order=o["order"], plus=o["plus"])
     else:
-        expand = ExpandFactory(mode=o["factory"], drop=o["drop"])
+        expand = ExpandFactory(mode=o["factory"], drop=o["drop"], plus=o["plus"])
     inf_map = {"minimise": MinimisePatterns, "deadstat": DropDeadStat, "merge": MergeStats}
     inferral = [inf_map[name]() for name in o["inferral"]]
     if o["layout"] == "initial":
